@@ -6,5 +6,5 @@ mkdir -p $D/src/example
 cp -r /repo/include $D/include
 cp -r /repo/src/example/pegtl $D/src/example/pegtl
 ( cd $D && patch -s -p1 < "$1" ) || { echo "PATCH FAILED"; rm -rf $D; exit 3; }
-VERIF_REPO=$D python3 /verif/vf/driver.py $2 --tier ${3:-quick} --no-evidence 2>&1 | grep -E "VIOLATION|KNOWN|ERROR|sig=|evaluations|^\s+\[" | cut -c1-400 | head -${4:-14}
+VERIF_SHRINK=${VERIF_SHRINK:-0} VERIF_REPO=$D python3 /verif/vf/driver.py $2 --tier ${3:-quick} --no-evidence 2>&1 | grep -E "VIOLATION|KNOWN|ERROR|sig=|evaluations|^\s+\[" | cut -c1-400 | head -${4:-14}
 rm -rf $D
